@@ -35,7 +35,12 @@ def run(c):
     byid = {s["id"]: s for s in scripts}
     c.traces_validated += len(scripts)
     reported = 0
+    c.extra["verdict_lines"] = len(verdicts)
+    tried = 0
     for v in verdicts:
+        if reported >= 10 or tried >= 30:
+            break       # enough evidence; every reported verdict has been re-confirmed alone
+        tried += 1
         s = byid[v["script"]]
         # re-confirm once, alone (timing-sensitive observations: goroutine census, late pushes)
         again = dict(s, id="confirm")
